@@ -79,3 +79,12 @@ C("C08", "exploration",
   "(so rotation covariance holds edge by edge); dipole gains sin(theta) and z.p; plus the signal lattice (4 value types x 4 signals x force_real: "
   "rejection of undefined/power with nothing stored, linearity, input untouched) and receive of (s,p) pairs == sum of responses.",
   "finite lattice of directions; gain pattern of the test antenna regular at the poles", "DESIGN.md §4 C08")
+C("C17", "exploration",
+  "exhaustive configuration lattice with every numpy.random draw owned; single (quick) / pairs of (thorough) draws swept over a lattice by a deviation-bounded choice tree; oracle = the published cosine sum",
+  "Both noise classes x N in {16,17,64,65} x 4 grid offsets (incl. 0 and 2^20 dt) x 4 bands (inside, touching 0, past Nyquist, between bins) x "
+  "4 amplitude specifications x uniqueness 1..3 x rms given or from (T,R): frequencies inside the band, amplitudes as specified (default = "
+  "Rayleigh(1/sqrt2) of the owned variates, so E[a^2]=1), rms = sqrt(kTR*bandwidth), waveform == sum a_k cos(2 pi f_k (t - t_ref) -+ phi_k) "
+  "sqrt(2/n) rms to 1e-11, re-gridding on sub/super/shifted windows reproduces stored values at shared times, RMS over a period, no DFT bin "
+  "outside the band, same random script -> identical basis and waveform, different stream -> different. Open finding K1 (Nyquist bin half weight) "
+  "is recognised by its exact residual signature.",
+  "distribution claims reduced to exact statements about the map from uniform variates; FFT noise compared at sample times", "DESIGN.md §4 C17")
